@@ -12,7 +12,7 @@
   * `u_form_equiv`            u = rV ⇒ u'' = r(V'' + 2V'/r); the two posed radial equations are equivalent
   * `radial_poisson_of_lm`    separated Laplacian + eigenfunction hypothesis ⇒ posed radial equation
   * `boundary_value_spec`, `boundary_value_origin`, `boundary_value_higher`, `initial_value_spec`
-  * `posed_linear`, `linear_combination_solves`, `linear_in_density`, `bvp_unique_monopole`
+  * `posed_linear`, `linear_combination_solves`, `linear_in_density`, `bvp_unique_monopole`, `bvp_unique_higher`
   * `robust_split`, `robust_exact_core`, `robust_vs_plain`, `robust_fold`, `core_term_is_c17_density`
   * `problems_count`, `call_shapes`   loop structure and call plumbing recorded by the translator
   * `s_reference`             the oracle's analytic reference is C17's proven potential and it solves
@@ -323,9 +323,9 @@ theorem linear_combination_solves {l : ℕ} {m : ℤ} {R : ℝ} {ρ₁ ρ₂ u v
 /-- **Linearity of the answer under uniqueness** (part 3): let `solver` be any map from
 (density component, boundary value) to functions that returns a solution of the posed problem
 for the densities in a class `D`, and assume the posed problem has at most one solution on
-`[0, R]` (`huniq`; for the exact problem this is a theorem for `l = 0`, see
-`bvp_unique_monopole`; for a numerical solver it is an assumption about the solver). Then the
-answer is linear in `(ρ, B)`. -/
+`[0, R]` (`huniq`; for the exact problem this is a theorem for every `l`: the monopole is
+`bvp_unique_monopole`, every `l ≥ 1` is `bvp_unique_higher`; for a numerical solver it is an
+assumption about the solver). Then the answer is linear in `(ρ, B)`. -/
 theorem linear_in_density {l : ℕ} {m : ℤ} {R : ℝ} (D : Set (ℝ → ℝ)) (solver : (ℝ → ℝ) → ℝ → ℝ → ℝ)
     (hsol : ∀ ρ ∈ D, ∀ B, IsBvpSolution l m R ρ B (solver ρ B))
     (huniq : ∀ ρ ∈ D, ∀ B u v, IsBvpSolution l m R ρ B u → IsBvpSolution l m R ρ B v →
@@ -358,6 +358,62 @@ theorem bvp_unique_monopole {m : ℤ} {R : ℝ} (hR : 0 < R) (ρ : ℝ → ℝ) 
     (by simp only [hub.1, hvb.1, sub_self]) (by simp only [hub.2, hvb.2, sub_self])
   intro r hr
   exact sub_eq_zero.mp (key r hr)
+
+/-- **Uniqueness for the higher components** (`l ≥ 1`: `u'' = l(l+1)u/r² − 4π r ρ`, `u(0) = 0`,
+`u(R) = upper value`): two solutions of the posed problem agree on `[0, R]`.  The difference `w`
+satisfies the Euler-type equation `w'' = l(l+1)·w/r²` on `(0, R)` with `w(0) = w(R) = 0`; by the
+maximum principle (`zero_of_second_deriv_eq_pos_mul`: a positive interior maximum would have
+`w' = 0`, `w'' > 0`) it vanishes.  Together with `bvp_unique_monopole` this discharges `huniq` of
+`linear_in_density` for the exact problem of every `(l, m)`. -/
+theorem bvp_unique_higher {l : ℕ} (hl : 1 ≤ l) {m : ℤ} {R : ℝ} (hR : 0 < R) (ρ : ℝ → ℝ) (B : ℝ) (u v : ℝ → ℝ)
+    (hu : IsBvpSolution l m R ρ B u) (hv : IsBvpSolution l m R ρ B v) :
+    ∀ r ∈ Set.Icc 0 R, u r = v r := by
+  obtain ⟨u1, u2, huc, hud, hub⟩ := hu
+  obtain ⟨v1, v2, hvc, hvd, hvb⟩ := hv
+  rw [bcHolds_iff] at hub hvb
+  have hlpos : (0:ℝ) < (l:ℝ) * (l + 1) := by
+    have : (1:ℝ) ≤ l := by exact_mod_cast hl
+    nlinarith
+  have key := zero_of_second_deriv_eq_pos_mul hR (w := fun r => u r - v r) (w1 := fun r => u1 r - v1 r)
+    (w2 := fun r => u2 r - v2 r) (c := fun r => (l:ℝ) * (l + 1) / r ^ 2)
+    (huc.sub hvc)
+    (fun r hr => (hud r hr).1.sub (hvd r hr).1)
+    (fun r hr => (hud r hr).2.1.sub (hvd r hr).2.1)
+    (fun r hr => by
+      obtain ⟨_, _, h3⟩ := hud r hr
+      obtain ⟨_, _, k3⟩ := hvd r hr
+      have hr0 : r ≠ 0 := hr.1.ne'
+      simp only [(posed_bvp_eq l r 0).1 hr0, (posed_bvp_eq l r _).2.2, odeLhs3] at h3 k3
+      show u2 r - v2 r = (l:ℝ) * (l + 1) / r ^ 2 * (u r - v r)
+      linear_combination h3 - k3)
+    (fun r hr => div_pos hlpos (pow_pos hr.1 2))
+    (by simp only [hub.1, hvb.1, sub_self]) (by simp only [hub.2, hvb.2, sub_self])
+  intro r hr
+  exact sub_eq_zero.mp (key r hr)
+
+/-- non-vacuity of `bvp_unique_higher`: `l = 1`, constant density component `ρ = 1/π`, `R = 1`:
+`u(r) = r² − r³` solves `u'' = 2u/r² − 4π r ρ`, `u(0) = u(1) = 0` (for any `B`: the upper value of an
+`l = 1` component is `0`). -/
+example (B : ℝ) : IsBvpSolution 1 0 1 (fun _ => 1 / π) B (fun r => r ^ 2 - r ^ 3) := by
+  refine ⟨fun r => 2 * r - 3 * r ^ 2, fun r => 2 - 6 * r, by fun_prop, ?_, ?_⟩
+  · intro r hr
+    refine ⟨?_, ?_, ?_⟩
+    · have := ((hasDerivAt_id r).pow 2).sub ((hasDerivAt_id r).pow 3)
+      simp only [id] at this
+      refine this.congr_deriv ?_
+      ring
+    · have := ((hasDerivAt_id r).const_mul 2).sub (((hasDerivAt_id r).pow 2).const_mul 3)
+      simp only [id] at this
+      refine this.congr_deriv ?_
+      ring
+    · have hr0 : r ≠ 0 := hr.1.ne'
+      rw [(posed_bvp_eq 1 r 0).1 hr0, (posed_bvp_eq 1 r _).2.2, odeLhs3]
+      have := Real.pi_ne_zero
+      field_simp
+      ring
+  · rw [bcHolds_iff]
+    refine ⟨by simp, ?_⟩
+    simp [upperValue]
 
 /-- non-vacuity of `IsBvpSolution` (and of the hypotheses of the three theorems above):
 `l = 0`, constant density component `ρ = 1`, `R = 1`, boundary value `B`:
